@@ -56,6 +56,7 @@ def _sym_task(pid, tier, seed, name, opts):
     solver = _W["solver"]
     solver.stats = {}
     eng = symx.Engine(solver, branch_timeout_ms=opts.get("branch_ms", 8000), max_paths=opts.get("max_paths", 300))
+    eng.unknown_budget = opts.get("unknown_budget", 0)  # undecided branch sides explored anyway (slow: thorough tiers)
     dis = core.Discharger(solver, ob_timeout_ms=opts.get("ob_ms", 20000))
     funcs = set()
     first = [True]
